@@ -137,6 +137,14 @@ Eval(e, env) ==
                          ELSE LET y == Eval(e[3], env) IN IF IsErr(y) THEN Err ELSE Bool(Truthy(y))
       [] e[1] = "nrodd" -> Bool(env.nr % 2 = 1)
       [] e[1] = "true" -> Bool(TRUE)
+      [] e[1] = "bmin" -> LET x == Eval(e[2], env) y == Eval(e[3], env) IN                       \* Python builtin min(x, y)
+                          IF IsErr(x) \/ IsErr(y) THEN Err ELSE IF Comparable(x, y) THEN (IF VLess(y, x) THEN y ELSE x) ELSE Err
+      [] e[1] = "bmax" -> LET x == Eval(e[2], env) y == Eval(e[3], env) IN                       \* Python builtin max(x, y)
+                          IF IsErr(x) \/ IsErr(y) THEN Err ELSE IF Comparable(x, y) THEN (IF VLess(x, y) THEN y ELSE x) ELSE Err
+      [] e[1] = "bmaxl" -> LET x == Eval(e[2], env) y == Eval(e[3], env) IN                      \* max([x, y]): an iterable argument
+                          IF IsErr(x) \/ IsErr(y) THEN Err ELSE IF Comparable(x, y) THEN (IF VLess(x, y) THEN y ELSE x) ELSE Err
+      [] e[1] = "bsum" -> LET x == Eval(e[2], env) y == Eval(e[3], env) IN                       \* sum([x, y])
+                          IF IsErr(x) \/ IsErr(y) THEN Err ELSE IF IsNum(x) /\ IsNum(y) THEN NAdd(x, y) ELSE Err
       [] e[1] = "poison" -> LET x == Eval(e[2], env) IN                                        \* raises iff the value is the poison string e[3]
                             IF IsErr(x) THEN Err ELSE IF x[1] = "s" /\ x[2] = e[3] THEN Err ELSE x
       [] OTHER -> Err
